@@ -79,19 +79,20 @@ type Ev struct {
 }
 
 type Trace struct {
-	Mode   string `json:"mode"`
-	T      int    `json:"t"`
-	MaxR   int    `json:"maxr"`
-	AT     int    `json:"at"`
-	Slow   bool   `json:"slow"`   // real time came too close to a near context deadline: not judged
-	Queued int    `json:"queued"` // ms the request waited behind NSTART before its first transmission
-	Ev     []Ev   `json:"ev"`
-	Copies []Copy `json:"copies"`
-	Others int    `json:"others"` // datagrams that are not copies of the request (e.g. ACKs for a CON separate response)
-	Errs   int    `json:"errs"`
-	WFail  bool   `json:"wfail"`    // the first transmission was refused by the network (transient write error)
-	NextOK bool   `json:"nextSent"` // wfail: a request issued afterwards was transmitted (the NSTART slot was given back)
-	Final  Ev     `json:"final"`    // after cancelling the caller (if it was still waiting)
+	Mode      string `json:"mode"`
+	T         int    `json:"t"`
+	MaxR      int    `json:"maxr"`
+	AT        int    `json:"at"`
+	Slow      bool   `json:"slow"`   // real time came too close to a near context deadline: not judged
+	Queued    int    `json:"queued"` // ms the request waited behind NSTART before its first transmission
+	Ev        []Ev   `json:"ev"`
+	Copies    []Copy `json:"copies"`
+	Others    int    `json:"others"` // datagrams that are not copies of the request (e.g. ACKs for a CON separate response)
+	Errs      int    `json:"errs"`
+	WFail     bool   `json:"wfail"` // the first transmission was refused by the network (transient write error)
+	NextOK    bool   `json:"nextSent"`
+	SweepHung bool   `json:"sweepHung"` // a housekeeping sweep did not return within 3 s // wfail: a request issued afterwards was transmitted (the NSTART slot was given back)
+	Final     Ev     `json:"final"`     // after cancelling the caller (if it was still waiting)
 }
 
 func runOne(st Stim) Trace {
@@ -262,7 +263,19 @@ func runOne(st Stim) Trace {
 		mu.Unlock()
 		switch a.A {
 		case "tick":
-			u.cc.CheckExpirations(base.Add(time.Duration(a.T)*time.Second - 50*time.Millisecond))
+			at := base.Add(time.Duration(a.T)*time.Second - 50*time.Millisecond)
+			swept := make(chan struct{})
+			go func() { defer close(swept); u.cc.CheckExpirations(at) }()
+			select {
+			case <-swept:
+			case <-time.After(3 * time.Second): // a sweep that never returns must not hang the driver: recorded, history abandoned
+				tr.SweepHung = true
+			}
+			if tr.SweepHung {
+				tr.Ev = append(tr.Ev, Ev{Act: a, Ret: "none", Pay: []int{}, Waiting: true, Entry: true})
+				tr.Final = Ev{Act: Act{A: "end"}, Ret: "none", Pay: []int{}}
+				return tr
+			}
 			u.settle()
 		case "race":
 			// the sweep of tick T fetches the pending entry, then - before it acts on it - the answer arrives and is processed
